@@ -180,6 +180,38 @@ class Invariants:
         return [(fp[0], G, kind) for (fp, G, kind, tmpl) in self.len_templates(S)
                 if len(fp) == 1 and tmpl == ("HOLE",) and kind == "order"]
 
+    # -- PTRLEN: x.p == as_ptr(X) and x.n == len(X) for the same X -----------------
+    def ptrlen(self, S):
+        """[(pointer field, length field)] of struct S"""
+        key = ("ptrlen", S)
+        if key in self._leneq:
+            return self._leneq[key]
+        fields = self.adt_fields(S)
+        res = None
+        sites = self.real_sites(S)
+        for (p, b, i, t) in sites:
+            here = set()
+            for pi, pf in enumerate(fields):
+                if pf["ty"]["k"] != "rawptr":
+                    continue
+                v = t[3][pi]
+                if not (v[0] == "call" and v[1] in ("alloc::vec::Vec::as_ptr", "alloc::vec::Vec::as_mut_ptr",
+                                                     "slice::as_ptr", "slice::as_mut_ptr") and v[3]):
+                    continue
+                X = strip_ref(v[3][0])
+                for ni, nf in enumerate(fields):
+                    if nf["ty"]["k"] == "int" and t[3][ni] == ("len", X):
+                        here.add((pf["name"], nf["name"]))
+            res = here if res is None else (res & here)
+        fz = self.prog.frozen
+        # the struct must borrow the container it points into: a lifetime-carrying marker field
+        has_marker = any(f["ty"]["k"] == "adt" and f["ty"]["name"] == "PhantomData" and
+                         any(a["k"] == "ref" for a in f["ty"].get("args", [])) for f in fields)
+        out = [(pn, nn) for (pn, nn) in (res or ()) if sites and has_marker
+               and fz.is_frozen(((S, pn),)) and fz.is_frozen(((S, nn),))]
+        self._leneq[key] = out
+        return out
+
     # -- constructor postcondition: length of a Vec field of the returned struct
     def ctor_len(self, fnpath, field):
         """term over ('arg', k) for len(ret.field) of a crate function returning a
